@@ -2,7 +2,7 @@ SPECIFICATION Spec
 CONSTANT Cfg <- MCCfg4
 CONSTANT MaxD = 2
 CONSTANT Symmetric = FALSE
-CONSTANT Extra = 1
+CONSTANT Extra = 0
 INVARIANT TypeOK
 INVARIANT Protocol
 INVARIANT MaskSound
